@@ -4,6 +4,7 @@ Import ListNotations.
 Require GenProofs_FrameMeas.
 Require Pauli Sem Uniform RefFold Loops.
 Require Import Stab Act Spec SpecProofs GF2 Gen_GateTable Gen_Frame GenProofs_Frame.
+Require GenProofs_TabMeas.
 
 (* (1) Tie G: every unitary FrameSimulator routine (translated from frame_simulator.inl) equals the documented gate action
        with the sign dropped, on frames of any size and any target list; every fixed unitary of the table is dispatched
@@ -93,3 +94,10 @@ Proof. exact consistent_complete. Qed.
 Example C02_nonvacuous : (exists g f, In (g, f) frame_do1) /\ (exists g f, In (g, f) frame_do2).
 Proof. split; [ destruct frame_do1 as [|[g f] l] eqn:E | destruct frame_do2 as [|[g f] l] eqn:E ];
   try (vm_compute in E; discriminate); repeat eexists; left; reflexivity. Qed.
+
+(* FrameSimulator's MXX / MYY / MZZ segments, regenerated from source: the single-qubit basis-B measurement routine of the
+   dispatch applied to every first target, conjugated by a self-inverse table gate taking B (x) B to B (x) I. *)
+Theorem C02_pair_measurement_segments_measure_the_product : GenProofs_TabMeas.seg_class_ok "frame" = true.
+Proof. exact GenProofs_TabMeas.frame_pair_segments_ok. Qed.
+Print Assumptions C02_pair_measurement_segments_measure_the_product.
+
